@@ -215,7 +215,8 @@ def l2_l5(prog, ctx):
     nof = query.returns_of_constant(f, "ECONF_NOFILE")
     ok12 = False
     for r in nof:
-        ok, cut = cfg.all_paths_cut(cfg.block_of(r), lambda lit, b, i: lit is not None and lit.kind == "lt" and "size" in lit.atom and lit.lhs.const_value() == 0 and not lit.pol)
+        ok, cut = cfg.all_paths_cut(cfg.block_of(r), lambda lit, b, i: lit is not None and "size" in lit.atom and not lit.pol and (
+            (lit.kind == "lt" and lit.lhs.const_value() == 0) or lit.kind == "truth"))
         if ok and cut:
             ok12 = True
             ctx.ok("L12", "no file at all gives ECONF_NOFILE", r.where, "return behind *size <= 0")
@@ -223,21 +224,29 @@ def l2_l5(prog, ctx):
         ctx.fail("L12", "no file at all gives ECONF_NOFILE", f.where, "an empty history is handed back with success", key="empty-result")
     succ = [r for r in f.returns() if query.returned_constant(r) in ("ECONF_SUCCESS", 0)]
     for r in succ:
-        ok, cut = cfg.all_paths_cut(cfg.block_of(r), lambda lit, b, i: lit is not None and lit.kind == "lt" and "size" in lit.atom and lit.lhs.const_value() == 0 and lit.pol)
+        ok, cut = cfg.all_paths_cut(cfg.block_of(r), lambda lit, b, i: lit is not None and "size" in lit.atom and lit.pol and (
+            (lit.kind == "lt" and lit.lhs.const_value() == 0) or lit.kind == "truth"))
         if not (ok and cut):
             ctx.fail("L12", "success only with at least one file", r.where, "ECONF_SUCCESS reachable with an empty history", key="empty-success")
     # L14 suffix
     sfx = [(lhs, rhs, st) for lhs, rhs, st in f.assignments() if (lhs["name"] if isinstance(lhs, dict) else render(lhs)) == "suffix"]
     vals = sorted(render(r) for _, r, _ in sfx)
-    dot = [st for lhs, rhs, st, kind in query.stores(f) if rhs is not None and rhs.const_value() == ord(".") and render(lhs) in ("cp[0]", "*cp")]
     plain = [st for _, r, st in sfx if render(r) == "config_suffix"]
     okp = False
     for st in plain:
         ok, cut = cfg.all_paths_cut(cfg.block_of(st), lambda lit, b, i: lit is not None and lit.kind == "eq" and lit.pol and "config_suffix[0]" in lit.atom
                                     and ord(".") in (lit.lhs.const_value(), lit.rhs.const_value()))
         okp = ok and bool(cut)
-    if '""' in vals and okp and dot and "cp" in vals:
-        ctx.ok("L14", "the suffix used for matching starts with a dot or is empty", dot[0].where, "suffix is \"\", config_suffix (when it starts with '.') or \".\" + config_suffix")
+    dotted = [r for _, r, _ in sfx if r.strip().k == "DeclRefExpr" and r.strip().j.get("dk") == "local"]
+    okd = False
+    for r in dotted:
+        v = r.strip().j["name"]
+        dots = [st for lhs, rhs, st, kind in query.stores(f) if rhs is not None and rhs.const_value() == ord(".") and render(lhs) in ("%s[0]" % v, "*%s" % v)]
+        copies = [c for c in f.calls(("strcpy", "stpcpy")) if render(c.call_args()[0]) == "%s + 1" % v and render(c.call_args()[1]) == "config_suffix"]
+        okd = bool(dots) and bool(copies)
+    others = [v for v in vals if v not in ('""', "config_suffix") and not any(render(r) == v for r in dotted)]
+    if '""' in vals and okp and okd and not others:
+        ctx.ok("L14", "the suffix used for matching starts with a dot or is empty", plain[0].where, "suffix is \"\", config_suffix (when it starts with '.') or \".\" + config_suffix")
     else:
         ctx.fail("L14", "the suffix used for matching starts with a dot or is empty", f.where, "suffix takes %s" % vals, key="suffix-dot")
 
@@ -257,7 +266,21 @@ def l6_l9(prog, ctx):
         else:
             ctx.fail("L6", "directory postfixes are visited in list order", wl[0].where, "loop `%s` with %d increments" % (cond, len(incs)), key="postfix-order")
     else:
-        ctx.inconclusive("L6", "directory postfixes are visited in list order", t.where, "loop not recognised")
+        fl = [x for x in t.walk() if x.k == "ForStmt"]
+        okp = False
+        if len(fl) == 1 and len(c) == 1 and c[0].within(fl[0]):
+            init, cond, inc = fl[0].child("init"), fl[0].child("cond"), fl[0].child("inc")
+            v, step = loops._step_of(inc) if inc is not None else (None, 0)
+            start = None
+            if init is not None and init.k == "DeclStmt":
+                for d in init.j.get("decls", []):
+                    if d["name"] == v and d.get("init", -1) >= 0:
+                        start = render(t.nodes[d["init"]])
+            if v and step > 0 and start == "config_dirs" and cond is not None and render(cond) in ("*%s != NULL" % v, "*%s" % v):
+                okp = True
+                ctx.ok("L6", "directory postfixes are visited in list order", fl[0].where, "pointer %s from config_dirs while *%s, one step per round" % (v, v))
+        if not okp:
+            ctx.inconclusive("L6", "directory postfixes are visited in list order", t.where, "loop not recognised")
     f = prog.fn("check_conf_dir")
     ctx.touch(f)
     cfg = f.cfg
@@ -310,38 +333,36 @@ def l6_l9(prog, ctx):
     rd = ReachingDefs(f)
     de = render(a[1]).lstrip("&")
     dname = "%s[%s]->d_name" % (de, sh.var)
+    dname2 = "(*%s[%s]).d_name" % (de, sh.var)
 
-    def resolve(n):
+    def resolve(n, at):
         """render with locals replaced by their (single) definitions"""
-        s = n.strip()
-        if s.k == "DeclRefExpr" and s.j.get("dk") == "local":
-            ds = [d for d in rd.reaching(s.j["name"], g[0]) if d.kind in ("init", "assign")]
+        s2 = n.strip()
+        if s2.k == "DeclRefExpr" and s2.j.get("dk") == "local":
+            ds = [d for d in rd.defs if d.var == s2.j["name"] and d.kind in ("init", "assign")]
             if len(ds) == 1 and ds[0].rhs is not None:
-                return resolve(ds[0].rhs)
-        if s.k == "BinaryOperator":
-            return "(%s %s %s)" % (resolve(s.children[0]), s.j["op"], resolve(s.children[1]))
-        if s.k == "CallExpr":
-            return "%s(%s)" % (s.j.get("callee"), ", ".join(resolve(x) for x in s.call_args()))
-        return render(s)
+                return resolve(ds[0].rhs, at)
+        if s2.k == "BinaryOperator":
+            return "(%s %s %s)" % (resolve(s2.children[0], at), s2.j["op"], resolve(s2.children[1], at))
+        if s2.k == "CallExpr":
+            return "%s(%s)" % (s2.j.get("callee"), ", ".join(resolve(x, at) for x in s2.call_args()))
+        return render(s2)
+    mhb = cfg.loop_header(main[0])
+    req = cfg.required_literals(gb, start=cfg.loop_body_entry(main[0]))
     len_ok = tail_ok = False
     deviant = None
-    mhb = cfg.loop_header(main[0])
-    for (b, i, s) in cfg.edges():
-        lit = cfg.edge_lit(b, i)
-        # only edges on the way to the read within the same iteration
-        if lit is None or not cfg.dominates(b, gb) or gb not in cfg.reachable(s, avoid_blocks=[mhb]):
-            continue
+    sl, dl = "strlen(config_suffix)", "strlen(%s)" % dname
+    for lit in req:
         if lit.kind == "lt":
-            l, r = resolve(lit.lhs), resolve(lit.rhs)
-            sl, dl = "strlen(config_suffix)", "strlen(%s)" % dname
+            l, r = resolve(lit.lhs, g[0]), resolve(lit.rhs, g[0])
             if (l, r) == (sl, dl) and lit.pol:
-                len_ok = True                      # suffix shorter than the name
+                len_ok = True
             elif (l, r) == (dl, sl) and not lit.pol:
-                len_ok = True                      # !(name < suffix)  i.e. suffix <= name
-            elif (l, r) == (dl, sl) and lit.pol or (l, r) == (sl, dl) and not lit.pol:
+                len_ok = True
+            elif ((l, r) == (dl, sl) and lit.pol) or ((l, r) == (sl, dl) and not lit.pol):
                 deviant = (lit, "the length guard is reversed: only names SHORTER than the suffix are considered")
         if lit.kind == "truth" and lit.node.k == "CallExpr" and lit.node.j.get("callee") in ("strncmp", "strcmp", "memcmp"):
-            args = [resolve(x) for x in lit.node.call_args()]
+            args = [resolve(x, g[0]) for x in lit.node.call_args()]
             tail = "((%s + strlen(%s)) - strlen(config_suffix))" % (dname, dname)
             if tail in args[:2] and "config_suffix" in args[:2]:
                 if not lit.pol:
@@ -353,9 +374,13 @@ def l6_l9(prog, ctx):
     if deviant:
         ctx.fail("L8", "only names ending in the suffix are read", deviant[0].node.where, deviant[1], key="suffix-filter")
     elif len_ok and tail_ok:
-        ctx.ok("L8", "only names ending in the suffix are read", g[0].where, "read behind strlen(suffix) < strlen(name) and strncmp(name + len - lensuffix, suffix) == 0")
+        ctx.ok("L8", "only names ending in the suffix are read", g[0].where, "every path to the read requires strlen(suffix) < strlen(name) and strncmp(name + len - lensuffix, suffix) == 0")
     elif not tail_ok and not len_ok:
-        ctx.fail("L8", "only names ending in the suffix are read", g[0].where, "no suffix test guards the read: every directory entry is parsed as a drop-in", key="suffix-filter")
+        mentions = [l2 for l2 in req if "config_suffix" in l2.atom or "d_name" in l2.atom]
+        if mentions:
+            ctx.inconclusive("L8", "only names ending in the suffix are read", g[0].where, "suffix test %s not recognised" % mentions[0])
+        else:
+            ctx.fail("L8", "only names ending in the suffix are read", g[0].where, "no suffix test guards the read: every directory entry is parsed as a drop-in", key="suffix-filter")
     elif not len_ok:
         ctx.fail("L8", "only names ending in the suffix are read", g[0].where, "no length guard: for names shorter than the suffix the tail pointer underflows", key="suffix-length")
     else:
@@ -393,44 +418,68 @@ def l10_l11(prog, ctx):
         ctx.ok("L11", "the history is merged front to back", incs[0].where, "key_files++ once per element")
     else:
         ctx.fail("L11", "the history is merged front to back", outer[0].where, "cursor updates: %s" % [render(x) for x in incs], key="merge-walk")
-    # L10: mask predicate = scan of LATER elements for an equal basename; equality skips the merge
-    dk = [st for lhs, rhs, st in m.assignments() if (lhs["name"] if isinstance(lhs, dict) else render(lhs)) == "double_key_files"]
-    start = [render(r) for l, r, s in m.assignments() if (l["name"] if isinstance(l, dict) else render(l)) == "double_key_files"]
+    # L10: mask predicate = scan of LATER elements for an equal basename; equality skips the merge.
+    # Names are discovered: the strcmp of two locals defined as basename(X->path); one X is the current element
+    # (*key_files), the other is *Q for a cursor Q that starts at key_files + 1.
+    def name_of(l):
+        return l["name"] if isinstance(l, dict) else render(l)
+    defs = {}
+    for l, r, st in m.assignments():
+        defs.setdefault(name_of(l), []).append((r, st))
+    BN = ("basename", "__xpg_basename")
+
+    def basename_of(arg):
+        a2 = arg.strip()
+        if a2.k != "DeclRefExpr" or len(defs.get(a2.j.get("name"), [])) != 1:
+            return None
+        r = defs[a2.j["name"]][0][0].strip()
+        if r.k == "CallExpr" and r.j.get("callee") in BN:
+            return render(r.call_args()[0])
+        return None
+    cmpc, Q, srcs = [], None, {}
+    for c in m.calls("strcmp"):
+        bs = [basename_of(x) for x in c.call_args()]
+        if None in bs:
+            continue
+        srcs = dict(zip([render(x) for x in c.call_args()], bs))
+        if "(*key_files)->path" in bs:
+            other = bs[1 - bs.index("(*key_files)->path")]
+            import re as _re
+            mm = _re.fullmatch(r"\(\*([A-Za-z_$.0-9]+)\)->path", other)
+            if mm and mm.group(1) != "key_files":
+                cmpc.append(c)
+                Q = mm.group(1)
+    src_ok = bool(cmpc)
+    start = [render(r) for r, st in defs.get(Q, [])] if Q else []
     later = start == ["key_files + 1"]
-    adv = [x for x in inner[0].child("body").walk() if x.k == "UnaryOperator" and x.j.get("op") == "++" and render(x.children[0]) == "double_key_files"]
-    cmpc = [c for c in m.calls("strcmp") if c.within(inner[0]) and set(render(x) for x in c.call_args()) == {"current_file", "compare_file"}]
-    srcs = {}
-    for l, r, s in m.assignments():
-        nm = l["name"] if isinstance(l, dict) else render(l)
-        if nm in ("current_file", "compare_file"):
-            srcs[nm] = render(r)
-    src_ok = srcs.get("current_file") in ("__xpg_basename((*key_files)->path)", "basename((*key_files)->path)") and \
-        srcs.get("compare_file") in ("__xpg_basename((*double_key_files)->path)", "basename((*double_key_files)->path)")
+    adv = [x for x in m.walk() if Q and x.k == "UnaryOperator" and x.j.get("op") == "++" and render(x.children[0]) == Q]
+    scan = [w for w in m.walk() if Q and w.k in ("WhileStmt", "ForStmt") and w.child("cond") is not None and render(w.child("cond")) in ("*" + Q, "*%s != NULL" % Q)]
+    mb = cfg.block_of(mc[0])
+    ohb = cfg.loop_header(outer[0])
     eq_breaks = False
-    if cmpc:
-        for (b, i, s) in cfg.edges():
+    if cmpc and len(scan) == 1:
+        ihb = cfg.loop_header(scan[0])
+        for (b, i, s2) in cfg.edges():
             lit = cfg.edge_lit(b, i)
             if lit is not None and lit.node is cmpc[0] and not lit.pol:
-                # equality edge leaves the inner loop without advancing
-                ihb = cfg.loop_header(inner[0])
-                ohb = cfg.loop_header(outer[0])
-                reg = cfg.reachable(s, avoid_blocks=[ihb, ohb])
-                eq_breaks = not any(ss == ihb for (bb, ii, ss) in cfg.edges() if bb in reg)
-    mb = cfg.block_of(mc[0])
-    okm, cutm = cfg.all_paths_cut(mb, lambda lit, b, i: lit is not None and lit.kind == "truth" and lit.atom == "*double_key_files" and not lit.pol)
+                # after an equal name: neither the scan goes on nor is the merge (consistently) reachable in this round
+                reg = cfg.reachable(s2, avoid_blocks=[ihb, ohb])
+                back = any(ss == ihb for (bb, ii, ss) in cfg.edges() if bb in reg)
+                eq_breaks = not back
+    okm, cutm = cfg.all_paths_cut(mb, lambda lit, b, i: lit is not None and lit.kind == "truth" and lit.atom == "*%s" % Q and not lit.pol)
     if later and len(adv) == 1 and cmpc and src_ok and eq_breaks and okm and cutm:
         ctx.ok("L10", "a drop-in is skipped when a later file has the same name", cmpc[0].where,
                "scan of key_files+1.. comparing basename(path); equality ends the scan before its end, and the merge runs only when the scan reached the end")
     else:
         why = []
-        if not later:
+        if cmpc and not later:
             why.append("the scan starts at %s, not at the next element" % start)
-        if not src_ok:
-            why.append("compared strings are %s" % srcs)
         if not cmpc:
-            why.append("no equality test of the two names")
+            why.append("no equality test of basename((*key_files)->path) with the basename of a later element's path (strcmp calls compare %s)" % (srcs or "nothing of that kind"))
         if cmpc and not eq_breaks:
             why.append("an equal name does not end the scan")
+        if cmpc and len(adv) != 1:
+            why.append("the scan cursor is advanced %d times" % len(adv))
         if not (okm and cutm):
             why.append("the merge is not conditional on 'no later file of that name'")
         ctx.fail("L10", "a drop-in is skipped when a later file has the same name", (cmpc[0] if cmpc else m).where, "; ".join(why), key="mask-predicate")
